@@ -186,7 +186,8 @@ Definition keyless_entries : list string :=
 Definition k10 : bool :=
   forallb (fun f => implb (str_in (fn_name f) keyless_entries) (fn_unsafe f || negb (fn_public f))) fns.
 
-(* K11: no type of the crate implements a trait parametrised by the key (AsMut<ThreadKey>, BorrowMut<ThreadKey>, ..): such an
+(* K11: no type of the crate implements AsMut<ThreadKey>, BorrowMut<ThreadKey> or Into<ThreadKey> (the generator lists exactly
+   those; AsRef / Borrow only give `&ThreadKey`, which is not Keyable, and From<ThreadKey> consumes a key): such an
    impl on a key holder lends out `&mut ThreadKey` — a Keyable — while the holder keeps whatever else it owns, a live guard
    in the case of the error of a poisoned try *)
 Definition k11 : bool := match key_trait_impls with [] => true | _ => false end.
